@@ -77,7 +77,8 @@ def main():
         tr, eng, err = L.run_schedule(scn)
         fails = oracle(prop, tr, eng, scn, err)
         L.emit_result({'status': 'reproduced' if fails else 'not-reproduced', 'failed': fails[:5],
-                       'in_known_region_F-C03-shrink': L.in_shrink_region(tr)})
+                       'in_known_region_F-C03-shrink': L.in_shrink_region(tr),
+                       'in_known_region_F-C12-sametime': L.in_sametime_region(tr)})
         return
     n = a.n or {'quick': {'C01': 500, 'C02': 400, 'C03': 500, 'C12': 300},
                 'thorough': {'C01': 12000, 'C02': 8000, 'C03': 10000, 'C12': 5000}}[a.tier][prop]
@@ -109,6 +110,9 @@ def main():
             samples.append(L.summarize(scn))
         if fails and L.in_shrink_region(tr):
             known.append('F-C03-shrink')
+            continue
+        if fails and L.in_sametime_region(tr):
+            known.append('F-C12-sametime')
             continue
         if fails:
             rp = L.write_replay(a.out, prop, 'sched%d' % i, scn, fails, extra={'driver': 'bounded.sched', 'prop': prop})
